@@ -319,7 +319,7 @@ func (w *world) exec(a *act, pre *mDB, ro db.ReadOnly, tx db.Transaction) reply 
 	case "MailboxFilterContains":
 		ml := a.list("ml")
 		n := w.listLen(ml)
-		got, err := ro.MailboxFilterContains(ctx, bid, w.pairList(pre, ml))
+		got, err := ro.MailboxFilterContains(ctx, bid, w.pairList(pre, ml, ro))
 		if err != nil {
 			return val(nil, err, n)
 		}
@@ -524,7 +524,7 @@ func (w *world) exec(a *act, pre *mDB, ro db.ReadOnly, tx db.Transaction) reply 
 	case "AddMessagesToMailbox":
 		ml := a.list("ml")
 		n := w.listLen(ml)
-		us, err := tx.AddMessagesToMailbox(ctx, bid, w.pairList(pre, ml))
+		us, err := tx.AddMessagesToMailbox(ctx, bid, w.pairList(pre, ml, ro))
 		if err != nil {
 			return val(nil, err, n)
 		}
